@@ -137,6 +137,8 @@ def showOptRec (o : Option Rec) : String := match o with | none => "None" | some
 def showStrs (l : List String) : String := "[" ++ ",".intercalate l ++ "]"
 def showNames (l : List Svc) : String := ",".intercalate (l.map (·.name))
 def showIdx (d : List (String × List String)) : String := "|".intercalate (d.map (fun p => p.1 ++ "=" ++ ",".intercalate p.2))
+def showAns (d : List (Nat × List Nat)) : String :=
+  "{" ++ ",".intercalate (d.map (fun p => toString p.1 ++ ":[" ++ ",".intercalate ((p.2.toArray.qsort (· < ·)).toList.map toString) ++ "]")) ++ "}"
 '''
 
 
@@ -412,10 +414,94 @@ def area_dns(rng, z, n_cases):
     return "\n\n".join(defs), exprs, exp
 
 
-AREAS = {"History": area_history, "Registry": area_registry, "Cache": area_cache, "Dns": area_dns}
+def area_queue(rng, z, n_cases):
+    import zeroconf._handlers.multicast_outgoing_queue as qm
+
+    def show_ans(d):
+        return "{" + ",".join("%d:[%s]" % (k, ",".join(str(x) for x in sorted(v))) for k, v in d.items()) + "}"
+
+    def lean_ans(d):
+        return "[" + ", ".join("(%d, [%s])" % (k, ", ".join(str(x) for x in sorted(v))) for k, v in d.items()) + "]"
+
+    Q = "GenFn.Queue.MulticastOutgoingQueue"
+    defs, exprs, exp = [], [], []
+    for ci in range(n_cases):
+        addl, agg = rng.choice([(0, 500), (1000, 1000)])
+        ops = []
+        t = 1000
+        for _ in range(rng.randint(2, 9)):
+            t += rng.choice([0, 1, 20, 100, 120, 400, 500, 1000, 1500])
+            k = rng.choice(["add", "add", "add", "ready", "ready", "rm"])
+            ans = {}
+            for _j in range(rng.randint(0, 3)):
+                ans[rng.randrange(1, 7)] = set(rng.sample(range(10, 14), rng.randint(0, 2)))
+            ops.append((k, t, ans, rng.randint(20, 120), t + rng.choice([0, 3, 7])))
+
+        effects = []
+
+        class Loop:
+            now_ms = 0
+
+            def time(self):
+                return self.now_ms / 1000.0
+
+            def call_at(self, when, cb):
+                effects.append("at%d" % round(when * 1000))
+
+        class Zc:
+            loop = Loop()
+
+            def async_send(self, out):
+                effects.append("send" + show_ans(out))
+
+        zc = Zc()
+        q = qm.MulticastOutgoingQueue(zc, addl, agg)
+        qm.construct_outgoing_multicast_answers = lambda answers: dict(answers)
+        out = []
+        L = ["def queueCase%d : String := Id.run do" % ci, "  let mut out : List String := []", "  let mut q := %s.init () %d %d" % (Q, addl, agg)]
+        failed = False
+        for k, now, ans, draw, clock in ops:
+            del effects[:]
+            zc.loop.now_ms = clock
+            try:
+                if k == "add":
+                    qm.RAND_INT = lambda lo, hi, d=draw: d if (lo, hi) == (20, 120) else -1
+                    L += ["  match %s.async_add q %d %s (fun lo hi => if lo == 20 && hi == 120 then %d else -1) %d with" % (Q, now, lean_ans(ans), draw, clock),
+                          "  | .ok p => do q := p.1; out := out ++ [\"a\" ++ showEff p.2]", "  | .error e => return \" \".intercalate (out ++ [\"!\" ++ e.name])"]
+                    q.async_add(float(now), {k2: set(v) for k2, v in ans.items()})
+                    out.append("a" + ";".join(effects))
+                elif k == "ready":
+                    qm.current_time_millis = lambda now=now: float(now)
+                    L += ["  match %s.async_ready q %d %d with" % (Q, now, clock),
+                          "  | .ok p => do q := p.1; out := out ++ [\"r\" ++ showEff p.2]", "  | .error e => return \" \".intercalate (out ++ [\"!\" ++ e.name])"]
+                    q.async_ready()
+                    out.append("r" + ";".join(effects))
+                else:
+                    L += ["  q := q.remove_answers_from_queue %s" % lean_ans(ans)]
+                    q._remove_answers_from_queue({k2: set(v) for k2, v in ans.items()})
+            except Exception as ex:  # noqa: BLE001
+                out.append("!" + exc_name(ex))
+                failed = True
+                break
+        if not failed:
+            out.append("Q:" + "|".join("%d,%d,%s" % (int(g.send_after), int(g.send_before), show_ans(g.answers)) for g in q.queue))
+            L.append("  out := out ++ [\"Q:\" ++ \"|\".intercalate (q.queue.map (fun g => toString g.send_after ++ \",\" ++ toString g.send_before ++ \",\" ++ showAns g.answers))]")
+        L.append("  return \" \".intercalate out")
+        exp.append(" ".join(out))
+        defs.append("\n".join(L))
+        exprs.append("queueCase%d" % ci)
+    return "\n\n".join(defs), exprs, exp
 
 
-AREA_SOURCES = {"History": ["_history.py", "_dns.py"], "Registry": ["_services/registry.py", "_services/info.py"], "Cache": ["_cache.py", "_dns.py"],
+AREAS = {"History": area_history, "Registry": area_registry, "Cache": area_cache, "Dns": area_dns, "Queue": area_queue}
+
+
+QUEUE_PRELUDE = r'''
+def showEff (l : List GenFn.Queue.QEffect) : String :=
+  ";".intercalate (l.map (fun e => match e with | .callAt t => "at" ++ toString t | .send a => "send" ++ showAns a))
+'''
+
+AREA_SOURCES = {"Queue": ["_handlers/multicast_outgoing_queue.py", "_handlers/answers.py", "_utils/time.py"], "History": ["_history.py", "_dns.py"], "Registry": ["_services/registry.py", "_services/info.py"], "Cache": ["_cache.py", "_dns.py"],
                 "Dns": ["_dns.py"]}
 
 
@@ -441,7 +527,8 @@ def emit(repo, areas):
         exprs += e
         expected += x
         owner += [area] * len(e)
-    lean = "\n".join(imports) + "\nimport Zc.Py.Model\nimport Zc.Model.Registry\n" + PRELUDE + "\n" + "\n\n".join(defs) + "\n\n" + \
+    lean = "\n".join(imports) + "\nimport Zc.Py.Model\nimport Zc.Model.Registry\n" + PRELUDE + (QUEUE_PRELUDE if "import Zc.GenFn.Queue" in imports else "") + \
+        "\n" + "\n\n".join(defs) + "\n\n" + \
         "\n".join('#eval IO.println ("=== " ++ %s)' % e for e in exprs) + "\n"
     json.dump({"lean": lean, "expected": expected, "owner": owner}, sys.stdout)
 
